@@ -164,7 +164,7 @@ def gen(rng, tier):
     # ---- oracles that decide the property directly come first (budget) ----
     yield {"kind": "gatespec", "sub": sub()}
     for b in ("ising", "heis"):
-        for L in ([2, 3, 4, 5] if quick else [1, 2, 3, 4, 5, 6, 7]):
+        for L in ([1, 2, 3, 4, 5, 6] if quick else [1, 2, 3, 4, 5, 6, 7]):
             for per in (False, True):
                 yield {"kind": "trotter", "builder": b, "L": L, "per": per, "sub": sub()}
     for b in ("ising2d", "heis2d"):
@@ -177,8 +177,8 @@ def gen(rng, tier):
     for lx in (2, 3):
         yield {"kind": "hubcross", "Lx": lx, "sub": sub()}
 
-    n_fsm = {"quick": 70, "thorough": 600, "search": 200}.get(tier, 70)
-    n_misc = {"quick": 12, "thorough": 80, "search": 40}.get(tier, 12)
+    n_fsm = {"quick": 120, "thorough": 1500, "search": 200}.get(tier, 120)
+    n_misc = {"quick": 12, "thorough": 150, "search": 40}.get(tier, 12)
 
     for L in range(1, 8 if quick else 10):
         for per in (False, True):
@@ -201,17 +201,19 @@ def gen(rng, tier):
         return
     # ---- gate-list ties ----
     steps = lambda: rng.choice([1, 1, 2, 3])  # noqa: E731
-    for L in range(1, 10):
-        for per in (False, True):
-            yield {"kind": "circ", "builder": "ising", "L": L, "per": per, "steps": steps(), "sub": sub()}
-            yield {"kind": "circ", "builder": "heis", "L": L, "per": per, "steps": steps(), "sub": sub()}
-        yield {"kind": "circ", "builder": "fh1d", "L": L, "n": rng.choice([1, 2, 3]), "steps": rng.choice([1, 2]), "sub": sub()}
-    for R in range(1, 5):
-        for C in range(1, 5):
-            yield {"kind": "circ", "builder": "ising2d", "R": R, "C": C, "steps": steps(), "sub": sub()}
-            yield {"kind": "circ", "builder": "heis2d", "R": R, "C": C, "steps": steps(), "sub": sub()}
-            yield {"kind": "circ", "builder": "fh2d", "R": R, "C": C, "n": rng.choice([1, 2]), "steps": 1 if R * C > 6 else rng.choice([1, 2]),
-                   "sub": sub()}
+    for _rep in range(1 if quick else 4):
+        for L in range(1, 10 if quick else 13):
+            for per in (False, True):
+                yield {"kind": "circ", "builder": "ising", "L": L, "per": per, "steps": steps(), "sub": sub()}
+                yield {"kind": "circ", "builder": "heis", "L": L, "per": per, "steps": steps(), "sub": sub()}
+            yield {"kind": "circ", "builder": "fh1d", "L": L, "n": rng.choice([1, 2, 3]), "steps": rng.choice([1, 2]), "sub": sub()}
+        for R in range(1, 5 if quick else 6):
+            for C in range(1, 5 if quick else 6):
+                yield {"kind": "circ", "builder": "ising2d", "R": R, "C": C, "steps": steps(), "sub": sub()}
+                yield {"kind": "circ", "builder": "heis2d", "R": R, "C": C, "steps": steps(), "sub": sub()}
+                if R * C <= 16:
+                    yield {"kind": "circ", "builder": "fh2d", "R": R, "C": C, "n": rng.choice([1, 2]),
+                           "steps": 1 if R * C > 6 else rng.choice([1, 2]), "sub": sub()}
     for _ in range(20 if quick else 200):
         yield {"kind": "lri", "sub": sub()}
     for _ in range(25 if quick else 200):
@@ -909,7 +911,7 @@ def halving(build, H, T, n0, order, what):
     r2 = errs[1] / max(errs[2], 1e-300)
     if errs[2] > 1e-9 and (r2 < need or r1 < need * 0.8):
         probs.append(f"{what}: Trotter error does not shrink with the step as order {order}: {detail}, ratios {r1:.2f} {r2:.2f}")
-    if errs[2] > 0.5 * errs[0] + 1e-9 or errs[2] > 0.25:
+    if errs[2] > 0.5 * errs[0] + 1e-9 or errs[2] > 0.6:
         probs.append(f"{what}: error stays large: {detail}")
     return probs, detail + f" ratios {r1:.2f} {r2:.2f}"
 
@@ -933,18 +935,19 @@ def run_trotter(inp):
             J, g = coup(rng), coup(rng)
             H = spin_h(L, bonds, {"Z": J}, {"X": g})
             build = lambda n: cl.create_ising_circuit(L, J, g, T / n, n, periodic=per)  # noqa: E731
-            mpo = MPO.ising(L, J, g, bc="periodic" if per else "open")
+            mpo = None if (L == 1 and per) else MPO.ising(L, J, g, bc="periodic" if per else "open")
         else:
             Jx, Jy, Jz, h = coup(rng), coup(rng), coup(rng), coup(rng)
             H = spin_h(L, bonds, {"X": Jx, "Y": Jy, "Z": Jz}, {"Z": h})
             build = lambda n: cl.create_heisenberg_circuit(L, Jx, Jy, Jz, h, T / n, n, periodic=per)  # noqa: E731
-            mpo = MPO.heisenberg(L, Jx, Jy, Jz, h, bc="periodic" if per else "open")
+            mpo = None if (L == 1 and per) else MPO.heisenberg(L, Jx, Jy, Jz, h, bc="periodic" if per else "open")
         what = f"{b}(L={L}, periodic={per})"
         probs, detail = halving(build, H, T, n0, order, what)
         # the Hamiltonian builder of the same name is the same operator (site 0 leftmost vs qiskit order: reverse the qubits)
-        hm = mpo.to_matrix()
+        # (L = 1 periodic: the MPO builder raises ValueError — bond (0,0) —, mirrored by the terms tie)
+        hm = mpo.to_matrix() if mpo is not None else None
         perm = np.array([int(format(k, f"0{L}b")[::-1], 2) for k in range(2**L)])
-        dd = float(np.linalg.norm(hm[np.ix_(perm, perm)] - H))
+        dd = float(np.linalg.norm(hm[np.ix_(perm, perm)] - H)) if hm is not None else 0.0
         if dd > 1e-9 * (1 + float(np.linalg.norm(H))):
             probs.append(f"{what}: MPO.{'ising' if b == 'ising' else 'heisenberg'} differs from the circuit's Hamiltonian by {dd:.2e}")
         sig = f"trotter:{b}:{L}:{per}"
@@ -1006,7 +1009,7 @@ def run_hubcross(inp):
     H2, _ = fh_h_2d(Lx, 1, u, t, mu)
     e1 = float(np.linalg.norm(U1 - sla.expm(-1j * H1 * T), 2))
     e2 = float(np.linalg.norm(U2 - sla.expm(-1j * H2 * T), 2))
-    lim = 0.02 if Lx == 2 else 0.15
+    lim = 0.05 if Lx == 2 else 0.4  # second order on two sites, first order beyond (measured: 1e-3 / 4e-2)
     if e1 > lim:
         probs.append(f"1-D Hubbard circuit (L={Lx}, u={u:.3f}, t={t:.3f}, mu={mu:.3f}) is {e1:.3e} away from exp(-iHT) of its docstring H")
     if e2 > lim:
@@ -1028,7 +1031,7 @@ def run_hubcross(inp):
     if dH > 1e-9:
         probs.append(f"harness: fermionic reordering of the documented Hamiltonians failed ({dH:.2e})")
     dU = float(np.linalg.norm(F @ U2 @ F.conj().T - U1, 2))
-    if dU > 2 * lim:
+    if dU > 1e-9:  # gate by gate the two circuits are conjugate under the fermionic swaps (measured 5e-15)
         probs.append(f"1-D and 2-D Hubbard circuits on a {Lx}-site chain differ by {dU:.3e} after reordering the modes "
                      f"(u={u:.3f}, t={t:.3f}, mu={mu:.3f})")
     return {"req": None, "impl": None, "oracle": ok(probs, f"e1 {e1:.2e} e2 {e2:.2e} cross {dU:.2e}"), "kind": "hubcross", "sig": f"hubcross:{Lx}"}
@@ -1062,6 +1065,13 @@ def run_gatespec(inp):
 # --------------------------------------------------------------------------------------------- dispatch
 
 def run(inp):
+    res = _run(inp)
+    if "corpus_file" in inp:  # keep the corpus marker although the sub-cases carry their own kind
+        res = [dict(r, kind="corpus:" + str(r.get("kind", inp["kind"]))) for r in (res if isinstance(res, list) else [res])]
+    return res
+
+
+def _run(inp):
     k = inp["kind"]
     if k == "circ":
         return run_circ(inp)
